@@ -219,6 +219,12 @@ def explain(c):
         if any(t in fam for t in tomb):
             aff |= fam
             keys.add(K_CHILD)
+            # a lock of a family member whose family is tombstoned is the lock/tombstone conflict again, through
+            # the status a child inherits from its parent: whichever is read first wins (outside the premise)
+            for tgt, ls in lock.items():
+                if tgt in fam:
+                    aff |= {tgt} | {(o["c"], o["id"]) for o in ls}
+                    excluded = True
     # blob sets on which the rebuild may abort (lock of a non-regular object, tombstone of a tombstone / lock)
     typ = {(o["c"], o["id"]): o["t"] for o in B}
     for o in B:
